@@ -649,6 +649,10 @@ impl Future for Driver {
     type Output = ();
     fn poll(self: Pin<&mut Self>, cx: &mut Context<'_>) -> Poll<()> {
         let mut slot = self.inner.borrow_mut();
+        if std::env::var("VERIF_DEBUG_OPS").is_ok() {
+            let st = self.app.sink.borrow().as_ref().map(|s| format!("open={} ready={} credit={}", s.is_open(), s.is_ready(), s.credit()));
+            self.app.log(Ev::Note(format!("driver of op {} polled ({st:?})", self.id)));
+        }
         match slot.as_mut() {
             None => Poll::Ready(()),
             Some(f) => match f.as_mut().poll(cx) {
